@@ -484,3 +484,18 @@ def x3(cx: Cx, ob: Ob) -> None:
     from ..rules import cached_derivations
 
     cached_derivations(cx, ob)
+
+
+@obligation("C02-X4", "uniqueness precondition (shared with C04): 'its unique record' - the strict constructor runs both duplicate detectors over all unordered pairs of records before any table is built, so prefix_map / synonym_to_prefix (last writer wins) and get_record (first match wins) cannot disagree", floor=4)
+def x4(cx: Cx, ob: Ob) -> None:
+    from .c04 import d1 as c04_order, d2 as c04_matrix
+
+    c04_order(cx, ob)
+    c04_matrix(cx, ob)
+
+
+@obligation("C02-X5", "pairing (shared with C05-D4): every normally returning path of add_record merges or appends and then unconditionally re-indexes the changed record, so the lookup tables never lag behind the records", floor=2)
+def x5(cx: Cx, ob: Ob) -> None:
+    from .c05 import check_add_record_pairing
+
+    check_add_record_pairing(cx, ob)
